@@ -255,6 +255,8 @@ class Gen:
         if k == "reopen" and not csv:
             k = "reindex"
         if k == "insert":
+            if r.random() < 0.25:
+                return ("insert", [self.point(untimed_ok=True)], r.choice([None, None, "m1"]), "compact")
             return ("insert", [self.point(untimed_ok=True)], r.choice([None, None, None, "m1", "m3", ""]))
         if k == "insert_multiple":
             pts = [self.point() for _ in range(r.choice([0, 2, 3, 4]))]
@@ -262,7 +264,7 @@ class Gen:
                 pts = sorted(pts, key=lambda p: p["time"])
             if r.random() < 0.25 and allow_raise:
                 pts.insert(r.randrange(len(pts) + 1), None)
-            return ("insert", pts, r.choice([None, None, "m2"]), "multiple")
+            return ("insert", pts, r.choice([None, None, "m2"]), "multiple") + (("compact",) if r.random() < 0.25 else ())
         if k == "remove":
             return ("remove", self.query(), self.mfilter())
         if k == "drop":
